@@ -231,6 +231,11 @@ class G:
             return ["slice", a if (a or rng.random() < 0.5) else "-", "-" if b is None else b, "-"], cols
         if k == "sort":
             return ["sort", *self.terms(cols)], cols
+        if k == "sortslice":
+            # a sort on ALL columns: the order is total up to identical rows
+            ts = [["term", ["ref", c], rng.choice(["asc", "desc"])] for c in sorted(cols)]
+            rng.shuffle(ts)
+            return ["sort", *ts], cols
         raise AssertionError(k)
 
     def apply(self, target: str, op, newcols, opts=None) -> str:
@@ -610,4 +615,73 @@ def prog_sql(seed: int, n_ops: int = 8, *, sorts: float = 1.0, selfjoin: float =
     for r in observed:
         g.emit(["sqlexec", r])
         g.emit(["sem", r])
+    return g
+
+
+def prog_multi(seed: int, n_ops: int = 8, *, three: float = 0.3, prefs: float = 0.6) -> G:
+    """Multi-engine programs (SQL + iteration [+ second iteration engine]): preferred-engine
+    options, transfers, materializations, chains, joins; every result is processed and executed
+    (C03, C07, C10, C14, C15)."""
+    g = G(seed, max_rows=4)
+    rng = g.rng
+    g.engine("e0", "sql")
+    g.engine("e1", "iter")
+    engines = ["e0", "e1"]
+    if rng.random() < three:
+        g.engine("e2", "iter")
+        engines.append("e2")
+    for _ in range(rng.choice([1, 2])):
+        g.leaf("e0", cols=sorted(rng.sample(BASE_COLS, rng.choice([1, 2, 3]))))
+    for _ in range(rng.choice([1, 1, 2])):
+        g.leaf("e1", cols=sorted(rng.sample(BASE_COLS, rng.choice([1, 2, 3]))))
+    if rng.random() < 0.12:
+        g.doomed(rng.choice(["e0", "e1"]))
+    if rng.random() < 0.12:
+        g.joinid(rng.choice(["e0", "e1"]))
+    observed: list[str] = []
+    for _ in range(n_ops):
+        k = rng.random()
+        t = g.pick()
+        if t is None:
+            break
+        if k < 0.5:
+            op, nc = g.rand_op(g.cols[t], allow=("calc", "dedup", "proj", "sel", "sort", "sortslice"))
+            if rng.random() < prefs:
+                pref = rng.choice(engines)
+                bt, tr, req = rng.random() < 0.75, rng.random() < 0.35, rng.random() < 0.3
+                plain = g.apply(t, op, nc)           # the same request issued plainly, for comparison
+                observed.append(plain)
+                r = g.apply(t, op, nc, g.opts(pref, bt, tr, req))
+                if tr and not bt:
+                    g.eng[r] = pref
+            else:
+                r = g.apply(t, op, nc)
+        elif k < 0.68:
+            r = g.transfer(t, rng.choice(engines))
+        elif k < 0.78:
+            r = g.mat(t)
+        elif k < 0.87:
+            cands = [u for u in g.cols if g.cols[u] == g.cols[t] and g.eng[u] == g.eng[t]]
+            r = g.chain(t, rng.choice(cands))
+        else:
+            def ok(u: str) -> bool:
+                return not ((g.cols[u] & g.cols[t]) & NONKEY) and u != t
+
+            u = g.pick(pred=ok)
+            if u is None:
+                continue
+            pred = g.pred(g.cols[t] | g.cols[u], 1) if rng.random() < 0.4 and (g.cols[t] | g.cols[u]) else None
+            r = g.join(t, u, pred, bt=rng.random() < 0.7, tr=rng.random() < 0.6)
+        observed.append(r)
+    for r in observed:
+        p = "p" + r[1:]
+        g.emit(["process", p, r])
+        g.emit(["exec", p])
+        g.emit(["sqlexec", p])
+        g.emit(["sem", r])
+        if rng.random() < 0.25:
+            q = "q" + r[1:]
+            g.emit(["process", q, r])
+            g.emit(["exec", q])
+            g.emit(["sqlexec", q])
     return g
